@@ -1,8 +1,9 @@
 ---------------------------- MODULE MC_Bridges ----------------------------
 (***************************************************************************)
 (* Model-checking instances of Bridges.tla: the table / matrix / condition *)
-(* catalogues of the quick and the thorough tier.  (Penalty.tla in this    *)
-(* directory is a link to ../pen/Penalty.tla, instantiated by Bridges.)    *)
+(* catalogues of the quick and the thorough tier.  (Bridges instantiates   *)
+(* PenaltyC17.tla, the frozen copy of ../pen/Penalty.tla it was written    *)
+(* against.)                                                               *)
 (***************************************************************************)
 EXTENDS Bridges
 
@@ -29,15 +30,19 @@ Ch1(t, k, h, ci) == [lv |-> <<[ty |-> t, k |-> k, h |-> h, c |-> ci]>>, b |-> 1,
 QWPChains ==   {Ch1(t, 1, 2, ci) : t \in 1..9, ci \in 1..3}
           \cup {Ch1(t, 100, 5, 1) : t \in 1..9}                     \* the default k, h of seven types
           \cup {Ch1(t, INFv, 5, 1) : t \in {3, 4}}                   \* the uniform types' default k = inf
+          \cup {Ch1(t, 20, 5, ci) : t \in {8, 9}, ci \in {1, 3}}     \* the Lagrange types' default k = 20
 TWPChains ==   {Ch1(t, kh[1], kh[2], ci) : t \in 1..9, kh \in {<<1, 2>>, <<3, 1>>, <<100, 5>>, <<2, 3>>}, ci \in 1..3}
           \cup {Ch1(t, INFv, h, ci) : t \in {3, 4}, h \in {1, 5}, ci \in 1..3}
+          \cup {Ch1(t, 20, 5, ci) : t \in {8, 9}, ci \in 1..3}
 
-QURanges == {<<0, 3>>, <<1, 2>>, <<2, 2>>}
-TURanges == {<<0, 3>>, <<1, 2>>, <<0, 5>>, <<2, 3>>}
+QUV == {-2, 0, 1, 2, 4, 6, 24}                 \* half units: -1, 0, 1/2, 1, 2, 3, 12
+TUV == {-2, 0, 1, 2, 3, 4, 6, 24}
+QURanges == {<<0, 3>>, <<1, 2>>, <<2, 2>>, <<-1, 1>>, <<10, 12>>}      \* (with a negative bound; two-digit bounds)
+TURanges == {<<0, 3>>, <<1, 2>>, <<0, 5>>, <<2, 3>>, <<-2, 1>>, <<10, 12>>}
 QLin == {<<1, 1, 1>>, <<1, -1, 0>>, <<2, 1, 1>>, <<0, 1, 1>>, <<1, 0, 0>>}
 TLin == {<<a, b, e>> : a \in {-1, 0, 1, 2}, b \in {-1, 1, 2}, e \in {0, 1}}
-QQV == {-3, -2, -1, 0, 1, 2, 3, 4, 6}
-TQV == -5..7
+QQV == {-3, -2, -1, 0, 1, 2, 3, 4, 6, 40, 49}        \* quarter units; 40 = 10.0, 49 = 12.25
+TQV == (-5..7) \cup {40, 49, -41}
 VacFams == {"vect"}
 AllFams == {"withpen", "aspen", "withcons", "vect", "vectr", "scalar", "uniq", "solvec", "solvep"}
 =============================================================================
